@@ -218,5 +218,5 @@ def run(chk):
     from .. import rules as _rules
     prog2, units2 = _rules.prog_args_program()
     chk.units = list(chk.units) + [u for u in units2 if u.endswith('argument_desc.cpp')]
-    chk.rule('R4', 'usage printing: the key column is laid out for exactly the arguments that are printed', 9)
+    chk.rule('R4', 'usage printing: the key column is laid out for exactly the arguments that are printed', 3)
     c18.r5_visibility_arguments(chk, prog2, rule='R4')
